@@ -11,7 +11,9 @@ collect(root) every node reachable from root has had its current from-scratch
 hash reported by some collect; a collect that follows a collect of the same
 root with only reads / other collects in between returns nothing; a collect
 that follows reset_collect(root) with only reads in between returns (up to
-equal hashes) every reachable node; every collected node carries a fresh hash.
+equal hashes) every reachable node; every node below ANY reset_collect(n) is reported again by the first later
+collect(r) that has it below r, whatever n and r are (partial resets, resets at shared nodes, collections from any
+ancestor, mutations in between); every collected node carries a fresh hash.
 """
 from . import c10 as base
 from .c10 import (impl, requests, model, oracle, compare, shrink, enc_op, Shadow, H, CASE_TIMEOUT)  # noqa
